@@ -18,6 +18,9 @@ def wire_views(F):
     return out
 
 
+_FACTS = [None]
+
+
 def subst(node, argmap):
     """substitute ('arg',k) / fields of arg k in an origin tree by the caller's nodes"""
     if not isinstance(node, tuple) or not node:
@@ -31,17 +34,32 @@ def subst(node, argmap):
             base = strip(argmap[rd[1]])
             if base[0] == 'field':
                 return ('field', base[1], tuple(base[2]) + tuple(node[2]))
+            if node[2] and base[0] == 'agg' and str(base[1]).startswith('closure:'):
+                # an upvar of a closure whose environment is known: resolve it through the proj branch below
+                return subst(('proj', ('__done__', base), tuple(node[2])), argmap)
             return ('proj', base, tuple(node[2])) if node[2] else base
         return node
+    if k == '__done__':
+        return node[1]
     if k == 'proj':
         inner = subst(node[1], argmap)
         if inner[0] == 'agg' and node[2] and node[2][0][0] == 'f':
             names = inner[3] if len(inner) > 3 else None
             fn = node[2][0][1]
             idx = names.index(fn) if names and fn in names else (int(fn) if fn.isdigit() else None)
+            if idx is None and str(inner[1]).startswith('closure:'):
+                # an upvar read inside a closure body, projected out of the closure value built by the parent
+                idx = upvar_index(None, inner[1][len('closure:'):], fn)
+                if idx is None and len(inner[2]) == 1:
+                    idx = 0
             if idx is not None and idx < len(inner[2]):
                 r = inner[2][idx]
-                return ('proj', r, node[2][1:]) if node[2][1:] else r
+                rest = node[2][1:]
+                rr = strip(r)
+                if rest and str(inner[1]).startswith('closure:') and rr[0] == 'field':
+                    # a captured reference: memory behind it is addressed like the parent's own place
+                    return ('field', rr[1], tuple(rr[2]) + tuple(p_ for p_ in rest if p_ != ('*',)))
+                return ('proj', r, rest) if rest else r
         return ('proj', inner, node[2])
     if k in ('bin',):
         return ('bin', node[1], subst(node[2], argmap), subst(node[3], argmap))
@@ -85,6 +103,34 @@ def inline_call(F, node, depth=0):
     r = ret_origin(F, cb)
     argmap = {i + 1: a for i, a in enumerate(node[2])}
     return subst(r, argmap)
+
+
+def inline_closures(F, node, depth=0):
+    """replace calls of small local closures (`let f = |x| ..; f(a)`, resolved by the compiler to the closure body) by the
+    closure's return origin with the arguments substituted; everything else is left as it is"""
+    if not isinstance(node, tuple) or not node or depth > 3:
+        return node
+    k = node[0]
+    if k == 'call':
+        args = tuple(inline_closures(F, a, depth) for a in node[2])
+        cb = F.bodies.get(node[1])
+        if cb is not None and '{closure' in node[1].rsplit('::', 1)[-1] and len(args) == 2 and len(cb.blocks) <= 12:
+            tup = strip(args[1])
+            if tup[0] == 'agg' and tup[1] == 'tuple':
+                argmap = {1: args[0]}
+                for i, a in enumerate(tup[2]):
+                    argmap[i + 2] = a
+                return inline_closures(F, subst(ret_origin(F, cb), argmap), depth + 1)
+        return ('call', node[1], args)
+    if k == 'bin':
+        return ('bin', node[1], inline_closures(F, node[2], depth), inline_closures(F, node[3], depth))
+    if k == 'un':
+        return ('un', node[1], inline_closures(F, node[2], depth))
+    if k == 'cast':
+        return ('cast', inline_closures(F, node[1], depth), node[2])
+    if k == 'phi':
+        return ('phi', tuple(inline_closures(F, a, depth) for a in node[1]))
+    return node
 
 
 def range_bounds(F, node, depth=0):
